@@ -1090,7 +1090,9 @@ def symbol_mismatch(info, sym):
                 break
     want_t = getattr(info, "template_args", None)
     if (targs or want_t) and not (info.is_ctor or info.is_dtor):
-        norm = lambda t: re.sub(r"\s+", "", t or "")
+        # llvm-cxxfilt spells std::string as libstdc++'s basic_string instantiation
+        norm = lambda t: re.sub(r"\s+", "", (t or "").replace(
+            "std::__cxx11::basic_string<char, std::char_traits<char>, std::allocator<char> >", "std::string"))
         if norm(targs) != norm(want_t):
             return "the wrapper calls the instantiation %s, the declaration instantiates %s" % (dem, want_t)
     if info.is_ctor or info.is_dtor:
